@@ -21,15 +21,17 @@ def harnesses():
             ["Rem", "RemAssign"], ["div_ceil"], ["checked_next_multiple_of"], ["next_multiple_of"]]
     # FULL 63/64-bit operands do not finish (each native `/` becomes its own divider circuit with a free
     # quotient: > 300 s per group, measured): single-limb claims are at narrow widths only
-    for b in [1, 2, 7, 8, 16]:
+    for b in [1, 2, 7, 8]:
         for w in range(6):
+            if b in (7, 8) and w >= 4:
+                continue   # next_multiple_of groups at 7/8 bits: > 300 s each and not probed to completion - not registered
             tier = "quick" if ((b in (1, 8) and w < 4) or b == 2) else "thorough"
             out.append(H("c03_single_%d_g%d" % (b, w), "C03", "c03::single::<%d,%d>" % (b, w), unwind=12, tier=tier,
                          timeout=1200 if tier == "quick" else 3600, inst="Uint<%d,1> (%s)" % (b, groups[w]), stubs=PIN, role="c03::single.g%d" % w,
                          domain="FULL (n, d), d != 0; slice kernels pinned unreachable; oracle native u64 / % "
                                 "(plus q*d+r = n, r < d for BITS <= 16)", free_bits=2 * b,
                          fns=gfns[w] + ["algorithms::div"]))
-    for b in [1, 2, 7, 8, 16]:
+    for b in [2]:
         if b == 1:
             continue  # at one bit d = 1 divides everything: no overflowing multiple exists
         out.append(H("c03_next_multiple_overflow_%d" % b, "C03", "c03::next_multiple_overflow_panics::<%d>" % b,
